@@ -77,7 +77,7 @@ CLAIMED = {
         text="Partial by nature. Coq theorems: the four ScoreState::accuracy functions lie in [0,1] for every state with "
              "non-negative counts and every origin, zero-denominator guard included (exact model); the FLOAT the code returns is modelled "
              "too, compared bit for bit on every recorded state, and proved with Flocq finite, within [0,1] and - for the "
-             "integer-quotient modes - within 2^-53 of the exact value (osu!'s binary64 tick weights 0.6/0.2 included); the decay-weighted sum of peaks in [0,M] is non-negative and bounded by M*k/(1-w). "
+             "integer-quotient modes - within 2^-53 of the exact value (osu!'s binary64 tick weights 0.6/0.2 included); the decay-weighted sum of peaks in [0,M] is non-negative and bounded by M*k/(1-w) (over Q), and on the binary64 values: finite peaks in [0,2^k] give a finite non-negative difficulty value of at most n*2^k (Flocq, monotone rounding). "
              "Finiteness and sign of everything that goes through pow/ln/erf/sqrt (skill evaluators, pp formulas) cannot be "
              "proved with the installed tooling (no bit-exact libm model): decided by scanning every f64 field of difficulty, "
              "strain and performance attributes on degenerate and ordinary maps x every prefix x consistent score states x "
